@@ -36,6 +36,31 @@ Fixpoint beq (a b : bytes) : bool :=
 Definition lower_byte (b : Z) : Z := if (65 <=? b) && (b <=? 90) then b + 32 else b.
 Definition lower (s : bytes) : bytes := map lower_byte s.
 
+(* strings.ToLower as far as a comparison with ASCII strings can tell (Go's Unicode lower-casing, which viper applies
+   to every key string, the URL-supplied module name included): besides A-Z exactly two code points lower-case into
+   ASCII -- U+212A KELVIN SIGN (E2 84 AA) -> 'k' and U+0130 (C4 B0) -> 'i' (checked over all of Unicode with the
+   toolchain's tables).  Every other non-ASCII rune lower-cases to a non-ASCII rune, and every byte that is not valid
+   UTF-8 becomes U+FFFD: here those bytes are left as they are, which is a different but equally non-ASCII result.
+   Hence [go_lower s] is an ASCII string iff strings.ToLower(s) is, and then they are equal: against ASCII
+   configuration keys the lookup is exact.  (A lead byte is never a continuation byte, so matching the two byte
+   patterns left to right finds exactly the places where Go decodes those runes, also after invalid bytes.)
+   [lower] (plain ASCII) stays the function applied to configuration keys and key patterns, which are ASCII. *)
+Fixpoint go_lower (s : bytes) : bytes :=
+  match s with
+  | [] => []
+  | b :: r =>
+      match r with
+      | [] => [lower_byte b]
+      | b2 :: r2 =>
+          if (b =? 196) && (b2 =? 176) then 105 :: go_lower r2
+          else match r2 with
+               | b3 :: r3 => if (b =? 226) && (b2 =? 132) && (b3 =? 170) then 107 :: go_lower r3
+                             else lower_byte b :: go_lower r
+               | [] => lower_byte b :: go_lower r
+               end
+      end
+  end.
+
 Definition dot : Z := 46.
 
 (* strings.Split(s, ".") *)
@@ -91,6 +116,10 @@ Fixpoint lookup (t : tree) (path : list bytes) : option tree :=
 Definition path_of (key : bytes) : list bytes := split_dots (lower key).
 Definition cfg_get (cfg : tree) (key : bytes) : option tree := lookup cfg (path_of key).
 
+(* ... for a key string that contains a URL-supplied name (strings.ToLower over the whole key) *)
+Definition path_of_go (key : bytes) : list bytes := split_dots (go_lower key).
+Definition cfg_get_go (cfg : tree) (key : bytes) : option tree := lookup cfg (path_of_go key).
+
 (* viper.IsSet *)
 Definition is_set (cfg : tree) (key : bytes) : bool :=
   match cfg_get cfg key with Some _ => true | None => false end.
@@ -112,6 +141,12 @@ Definition string_map_keys (cfg : tree) (key : bytes) : list bytes :=
    booleans cast to strings that are never a class name, lists and maps cast to "" *)
 Definition get_str (cfg : tree) (key : bytes) : option bytes :=
   match cfg_get cfg key with
+  | Some (Leaf (VStr s)) => Some s
+  | _ => None
+  end.
+
+Definition get_str_go (cfg : tree) (key : bytes) : option bytes :=
+  match cfg_get_go cfg key with
   | Some (Leaf (VStr s)) => Some s
   | _ => None
   end.
@@ -240,7 +275,7 @@ Definition h_status (b : backend) (ps : params) (showall : bool) : result :=
              viper.GetStringMap(kind);
    v0 (code before the repair): viper.IsSet(kind + "." + name), which follows dots inside the name. *)
 Definition module_configured (cfg : tree) (kind name : bytes) : bool :=
-  existsb (beq (lower name)) (string_map_keys cfg kind).
+  existsb (beq (go_lower name)) (string_map_keys cfg kind).
 Definition module_is_set_v0 (cfg : tree) (kind name : bytes) : bool :=
   is_set cfg (kind ++ [dot] ++ name).
 
@@ -268,7 +303,7 @@ Section Handlers.
 
   Definition h_notifier_detail (cfg : tree) (name : bytes) : result :=
     ([], if modtest cfg s_notifier name
-         then match get_str cfg (s_notifier ++ [dot] ++ name ++ [dot] ++ s_class_name) with
+         then match get_str_go cfg (s_notifier ++ [dot] ++ name ++ [dot] ++ s_class_name) with
               | Some cls => if known_notifier_class cls then ok200 else Resp 200 false BEmpty
               | None => Resp 200 false BEmpty     (* no case of the switch writes anything *)
               end
@@ -376,7 +411,7 @@ Definition status_of (r : route) (ps : params) (b : backend) : option gstatus :=
 (* a configured notifier has one of the four classes (the notifier coordinator refuses anything else at
    start-up; see C19) *)
 Definition notifier_class_known (cfg : tree) (name : bytes) : bool :=
-  match get_str cfg (s_notifier ++ [dot] ++ name ++ [dot] ++ s_class_name) with
+  match get_str_go cfg (s_notifier ++ [dot] ++ name ++ [dot] ++ s_class_name) with
   | Some cls => known_notifier_class cls
   | None => false
   end.
@@ -755,11 +790,95 @@ Definition world_backend (w : world) (override : Z) (ready : bool) : backend :=
    http.Error sets Content-Type text/plain, there is no request block *)
 Definition default_handler : outcome := Resp 404 false (BJson true true false None).
 
-(* A request that matches a registration runs its handler.  For a request that matches none, httprouter
-   (v1.3.0, all options at their defaults except NotFound -- checked by [route_table_ok]) either answers at
-   router level (301/307 redirect to the canonical path, 405 + Allow when the path is registered under another
-   method, 200 + Allow for OPTIONS) or calls NotFound; [serve] models the NotFound case, the router-level
-   answers are httprouter's (trusted, and accepted by the per-case oracle). *)
+(* ---- what httprouter v1.3.0 does with a request that matches no registration (router.go ServeHTTP), with every
+   option at its default except NotFound (checked by [route_table_ok]).  This is a SPECIFICATION-level description of
+   the router (its radix tree is not modelled); it is trusted, and compared with the real router on every unrouted
+   case of the differential (status code of the answer). ---- *)
+
+Definition m_get : bytes := Eval vm_compute in pb "GET".
+Definition m_options : bytes := Eval vm_compute in pb "OPTIONS".
+Definition m_connect : bytes := Eval vm_compute in pb "CONNECT".
+
+Definition matches (tbl : list brow) (method path : bytes) : bool :=
+  match dispatch tbl method path with Some _ => true | None => false end.
+
+(* a tree exists for the method: some registration uses it *)
+Definition has_tree (tbl : list brow) (method : bytes) : bool := existsb (fun row => beq (br_method row) method) tbl.
+
+Definition ends_with_slash (p : bytes) : bool := match rev p with c :: _ => c =? slash | [] => false end.
+Definition toggle_slash (p : bytes) : bytes := if ends_with_slash p then removelast p else p ++ [slash].
+
+(* trailing-slash recommendation: the path with its trailing slash removed (or added) is registered *)
+Definition tsr (tbl : list brow) (method path : bytes) : bool := matches tbl method (toggle_slash path).
+
+(* httprouter.CleanPath: empty and "." elements dropped, ".." removes the element before it, the result starts with "/"
+   and keeps a trailing slash (also when the path ends in "/.") unless it is the root *)
+Fixpoint clean_segs (segs : list bytes) (acc : list bytes) : list bytes :=
+  match segs with
+  | [] => rev acc
+  | s :: r =>
+      if beq s [] || beq s [dot] then clean_segs r acc
+      else if beq s [dot; dot] then clean_segs r (tl acc)
+      else clean_segs r (s :: acc)
+  end.
+
+Fixpoint join_slash (segs : list bytes) : bytes :=
+  match segs with
+  | [] => []
+  | s :: r => slash :: s ++ join_slash r
+  end.
+
+Definition clean_path (p : bytes) : bytes :=
+  match p with
+  | [] => [slash]
+  | c :: rest =>
+      let body := if c =? slash then rest else p in
+      let segs := split_on slash body in
+      let trailing := (match rest with [] => false | _ => ends_with_slash p end) || beq (last segs []) [dot] in
+      match clean_segs segs [] with
+      | [] => [slash]
+      | cs => join_slash cs ++ (if trailing then [slash] else [])
+      end
+  end.
+
+(* findCaseInsensitivePath: literal segments compared without regard to ASCII case *)
+Fixpoint match_segs_ci (pat : list bseg) (path : list bytes) : bool :=
+  match pat, path with
+  | [], [] => true
+  | BLit s :: pr, x :: xr => beq (lower s) (lower x) && match_segs_ci pr xr
+  | BParam _ :: pr, x :: xr =>
+      match x, xr with
+      | [], [] => false
+      | _, _ => match_segs_ci pr xr
+      end
+  | _, _ => false
+  end.
+
+Definition matches_ci (tbl : list brow) (method path : bytes) : bool :=
+  match path with
+  | c :: rest => (c =? slash) && existsb (fun row => beq (br_method row) method && match_segs_ci (br_segs row) (split_on slash rest)) tbl
+  | [] => false
+  end.
+
+Definition fixed_path (tbl : list brow) (method path : bytes) : bool :=
+  let c := clean_path path in matches_ci tbl method c || matches_ci tbl method (toggle_slash c).
+
+(* Allow: the path is registered under another method (OPTIONS itself never counts) *)
+Definition allowed (tbl : list brow) (method path : bytes) : bool :=
+  existsb (fun row => negb (beq (br_method row) method) && negb (beq (br_method row) m_options)
+                      && matches tbl (br_method row) path) tbl.
+
+(* Some code = the router answers by itself: 301 (GET) / 307 redirect to the path with the trailing slash toggled or to
+   the cleaned, case-corrected path; 200 + Allow for OPTIONS; 405 + Allow.  None = the request is handed to NotFound. *)
+Definition router_level (tbl : list brow) (method path : bytes) : option Z :=
+  if has_tree tbl method && negb (beq method m_connect) && negb (beq path [slash])
+     && (tsr tbl method path || fixed_path tbl method path)
+  then Some (if beq method m_get then 301 else 307)
+  else if beq method m_options then (if allowed tbl method path then Some 200 else None)
+  else if allowed tbl method path then Some 405 else None.
+
+(* A request that matches a registration runs its handler.  One that matches none is answered by the router itself
+   ([router_level]: redirect / 405 / OPTIONS, no handler and no backend involved) or handed to NotFound. *)
 Definition serve (tbl : list brow) (method path : bytes) (reqbody : Z) (b : backend) (cfg : tree) : result :=
   match dispatch tbl method path with
   | Some (row, ps) =>
@@ -767,5 +886,9 @@ Definition serve (tbl : list brow) (method path : bytes) (reqbody : Z) (b : back
       | Some r => handle r ps reqbody b cfg
       | None => ([], Crash)            (* a registration without a model case: excluded by [route_table_ok] *)
       end
-  | None => ([], default_handler)
+  | None =>
+      match router_level tbl method path with
+      | Some code => ([], Resp code false BOpaque)
+      | None => ([], default_handler)
+      end
   end.
